@@ -1145,13 +1145,22 @@ class AttrParser(BaseParser):
                 parser.raise_error("Expected integer value", at_position=self.span)
             return int(self.value)
 
-        def to_float(self, parser: AttrParser) -> float:
+        def to_float(self, parser: AttrParser, type: AnyFloat | None = None) -> float:
             """
             Convert the element to a float value. Raises an error if the type
             is compatible.
             """
             if isinstance(self.value, tuple):
                 parser.raise_error("No conversion from complex to float")
+            if (
+                type is not None
+                and isinstance(self.value, int)
+                and not isinstance(self.value, bool)
+                and self.span.text[:2] in ("0x", "0X")
+            ):
+                # A hexadecimal literal gives the bit pattern of the float
+                raw = self.value.to_bytes(type.compile_time_size, "little")
+                return next(type.iter_unpack(raw))
             return float(self.value)
 
         def to_complex(
@@ -1174,7 +1183,7 @@ class AttrParser(BaseParser):
             type: AnyFloat | IntegerType | IndexType | ComplexType,
         ):
             if isinstance(type, AnyFloat):
-                return self.to_float(parser)
+                return self.to_float(parser, type)
 
             match type:
                 case IntegerType():
